@@ -118,16 +118,20 @@ class CuboidCells(Cells):
                 # int() truncates towards 0.0. Instead we can simply use the 0.0 lower position.
                 if lower_position > 0.0:
                     # Find the smallest lower position that is still within the cell by slowly decreasing the position.
-                    while int(lower_position / self._cell_side_lengths[index]) == cell_identifier_list[index]:
+                    while self._cell_index(lower_position, index) == cell_identifier_list[index]:
                         lower_position = _next_float_down(lower_position)
-                    while int(lower_position / self._cell_side_lengths[index]) < cell_identifier_list[index]:
+                    while self._cell_index(lower_position, index) < cell_identifier_list[index]:
                         lower_position = _next_float_up(lower_position)
                 cell_min.append(lower_position)
                 # Find the greatest upper position that is still within the cell by slowly increasing the position.
-                while int(upper_position / self._cell_side_lengths[index]) == cell_identifier_list[index]:
-                    upper_position = _next_float_up(upper_position)
-                while int(upper_position / self._cell_side_lengths[index]) > cell_identifier_list[index]:
-                    upper_position = _next_float_down(upper_position)
+                if cell_identifier_list[index] + 1 == self._cells_per_side[index]:
+                    # The last cell extends up to the largest float below the system length.
+                    upper_position = _next_float_down(setting.system_lengths[index])
+                else:
+                    while self._cell_index(upper_position, index) == cell_identifier_list[index]:
+                        upper_position = _next_float_up(upper_position)
+                    while self._cell_index(upper_position, index) > cell_identifier_list[index]:
+                        upper_position = _next_float_down(upper_position)
                 cell_max.append(upper_position)
             self._cells.append(Cell(tuple(cell_identifier_list), tuple(cell_min), tuple(cell_max)))
 
@@ -207,8 +211,29 @@ class CuboidCells(Cells):
             If the given position lies outside of the simulation box.
         """
         assert all(0.0 <= position[index] <= setting.system_lengths[index] for index in range(setting.dimension))
-        return self._cells[sum(int(position[index] / self._cell_side_lengths[index]) * self._cumulative_product[index]
+        return self._cells[sum(self._cell_index(position[index], index) * self._cumulative_product[index]
                                for index in range(setting.dimension))]
+
+    def _cell_index(self, position_entry: float, index: int) -> int:
+        """
+        Return the index of the cell along the given direction that contains the given position entry.
+
+        The rounding in the float division may yield the number of cells per side for position entries just below the
+        system length. These belong to the last cell.
+
+        Parameters
+        ----------
+        position_entry : float
+            The position entry.
+        index : int
+            The index of the position entry within the position vector.
+
+        Returns
+        -------
+        int
+            The index of the cell along the given direction.
+        """
+        return min(int(position_entry / self._cell_side_lengths[index]), self._cells_per_side[index] - 1)
 
     def nearby_cells(self, cell: Cell) -> Set[Cell]:
         """
